@@ -860,3 +860,76 @@ Proof. exists 11, 20, 10, 20, 1%nat, 0%nat. do 2 eexists. vm_compute. repeat spl
 
 Example ex_incompatible : load (ex_doc 3 IIn) = Error EDim.
 Proof. vm_compute. reflexivity. Qed.
+
+(* ================= transform_constants: the two remaining ways to give a variable no unique meaning ================= *)
+Lemma defined_incl e e' v : incl e e' -> defined e v = true -> defined e' v = true.
+Proof.
+  intros I H. unfold defined in *. apply existsb_exists in H. destruct H as (q & Hq & E).
+  apply existsb_exists. exists q. split; auto.
+Qed.
+
+Lemma tc_ok_inv sts l : NoDup l -> forall st st', foldM (tc_step sts) l st = OK st' -> forall i, In i l ->
+  (nth i (snd st) None = None -> nth i sts false = false) /\
+  (forall q, nth i (snd st) None = Some q -> nth i sts false = false -> defined (fst st) (Z.of_nat i) = false).
+Proof.
+  induction 1 as [|j r Hj N IH]; intros st st' H i Hi; [contradiction|]. cbn in H.
+  apply bind_ok in H. destruct H as (s1 & H1 & H).
+  destruct Hi as [<-|Hi].
+  - unfold tc_step in H1. destruct (nth j (snd st) None) as [q|] eqn:En.
+    + split; [discriminate|]. intros q' Eq Hs. rewrite Hs in H1.
+      apply bind_ok in H1. destruct H1 as (e & He & _). unfold add_eq in He. cbn [feq_kind] in He.
+      destruct (defined (fst st) (Z.of_nat j)); [discriminate|reflexivity].
+    + split; [|discriminate]. intros _. destruct (nth j sts false); [discriminate|reflexivity].
+  - assert (Nij : j <> i) by (intros ->; contradiction).
+    destruct (IH _ _ H i Hi) as (A & B).
+    assert (Es : nth i (snd s1) None = nth i (snd st) None /\ incl (fst st) (fst s1)).
+    { unfold tc_step in H1. destruct (nth j (snd st) None) as [q|].
+      - destruct (nth j sts false). { inversion H1. split; auto. apply incl_refl. }
+        apply bind_ok in H1. destruct H1 as (e & He & H1). inversion H1. cbn.
+        split; [apply nth_upd_neq; auto|]. unfold add_eq in He. cbn [feq_kind] in He.
+        destruct (defined (fst st) (Z.of_nat j)); [discriminate|]. inversion He. apply incl_tl, incl_refl.
+      - destruct (nth j sts false); [discriminate|]. inversion H1. split; auto. apply incl_refl. }
+    destruct Es as (Es & Ie). rewrite Es in A, B. split; auto.
+    intros q Eq Hs. specialize (B q Eq Hs).
+    destruct (defined (fst st) (Z.of_nat i)) eqn:D; auto. rewrite (defined_incl _ _ _ Ie D) in B. discriminate.
+Qed.
+
+Lemma nth_map_seq' {T} (g : nat -> T) n i dflt : (i < n)%nat -> nth i (map g (seq 0 n)) dflt = g i.
+Proof.
+  intros H. rewrite nth_indep with (d' := g 0%nat) by (rewrite map_length, seq_length; auto).
+  rewrite map_nth with (d := 0%nat). rewrite seq_nth; auto.
+Qed.
+
+Lemma stages_tc d f : stages d f -> forall i x, nth_error (st_vars d) i = Some x ->
+  (finit x = None -> is_state (st_eqs d) i = false) /\
+  (forall q, finit x = Some q -> is_state (st_eqs d) i = false -> defined (st_eqs d) (Z.of_nat i) = false).
+Proof.
+  intros S i x Hx. pose proof (s_tc _ _ S) as T. unfold transform_constants in T.
+  assert (Li : (i < length (st_vars d))%nat) by (apply nth_error_Some; congruence).
+  destruct (tc_ok_inv _ _ (seq_NoDup (length (st_vars d)) 0) _ _ T i) as (A & B).
+  { apply in_seq. lia. }
+  cbn [fst snd] in A, B. rewrite (nth_map_seq' (is_state (st_eqs d)) _ i false Li) in A, B.
+  assert (En : nth i (map finit (st_vars d)) None = finit x).
+  { rewrite nth_indep with (d' := finit x) by (rewrite map_length; auto).
+    rewrite (map_nth finit (st_vars d) x i). rewrite (nth_error_nth _ _ _ Hx). reflexivity. }
+  rewrite En in A, B. auto.
+Qed.
+
+(* a state variable (it has an ODE after substitution of connected variables) without initial value *)
+Lemma reject_state_without_initial_value d :
+  (exists i x, nth_error (st_vars d) i = Some x /\ finit x = None /\ is_state (st_eqs d) i = true) ->
+  exists e, load d = Error e.
+Proof.
+  intros (i & x & Hx & Hf & Hs). apply reject. intros f H. apply load_stages in H.
+  destruct (stages_tc _ _ H i x Hx) as (A & _). rewrite (A Hf) in Hs. discriminate.
+Qed.
+
+(* a variable that is not a state has an initial value AND a defining equation *)
+Lemma reject_initial_value_and_equation d :
+  (exists i x q, nth_error (st_vars d) i = Some x /\ finit x = Some q /\ is_state (st_eqs d) i = false /\
+                 defined (st_eqs d) (Z.of_nat i) = true) ->
+  exists e, load d = Error e.
+Proof.
+  intros (i & x & q & Hx & Hf & Hs & Hd). apply reject. intros f H. apply load_stages in H.
+  destruct (stages_tc _ _ H i x Hx) as (_ & B). rewrite (B q Hf Hs) in Hd. discriminate.
+Qed.
